@@ -2,10 +2,12 @@
 """record_seed.py <Cxx> <variant> : confirm a sub-agent's seeded change and store it under /verif/seeded/<Cxx><variant>/"""
 import sys, os, subprocess, json, shutil, re
 prop, var = sys.argv[1], sys.argv[2]
-src = f"/tmp/seed/out_{prop}/{var}"
-dst = f"/verif/seeded/{prop}{var}"
+wave = sys.argv[3] if len(sys.argv) > 3 else "1"
+src = f"/tmp/seed/out_{prop}/{var}" if wave == "1" else f"/tmp/seed/out{wave}_{prop}/{var}"
+name = var if wave == "1" else {"a": "c", "b": "d"}[var]
+dst = f"/verif/seeded/{prop}{name}"
 env = dict(os.environ)
-if prop in ("C11", "C19") and "-race" in open(src + "/README.md").read():
+if "-race" in open(src + "/README.md").read():
     env["RACE"] = "-race"
 out = subprocess.run(["/verif/tools/seedcheck.sh", src], capture_output=True, text=True, env=env).stdout
 lines = out.splitlines()
@@ -27,14 +29,14 @@ for l in lines:
     if cur and cur not in first and (l.startswith("REFUTED") or l.startswith("UNDECIDED")) and "boundary@code=1" not in l:
         first[cur] = " ".join(l.split()[:3])
 meta = {
- "property": prop, "variant": var,
+ "property": prop, "variant": name, "wave": int(wave),
  "origin": "independent sub-agent given only the property text and its own scratch worktree of /repo (no access to /verif)",
  "needs_to_manifest": readme.strip().splitlines()[:40],
  "confirmed": {"demo_passes_on_unchanged_tree": ok_unchanged, "existing_suite_passes_with_change": suite_ok, "demo_fails_with_change": demo_fails,
-               "command": "tools/seedcheck.sh seeded/%s%s  (scratch copy of /repo under /tmp, removed afterwards%s)" % (prop, var, "; demo run with -race" if env.get("RACE") else "")},
+               "command": "tools/seedcheck.sh seeded/%s%s  (scratch copy of /repo under /tmp, removed afterwards%s)" % (prop, name, "; demo run with -race" if env.get("RACE") else "")},
  "checks_that_report_it": fired,
  "first_obligation_per_check": first,
  "detected_by_own_property_check": prop in fired,
 }
 json.dump(meta, open(dst + "/meta.json", "w"), indent=1)
-print(prop + var, "confirmed" if confirmed else "NOT CONFIRMED", "fired:", " ".join(fired))
+print(prop + name, "confirmed" if confirmed else "NOT CONFIRMED", "fired:", " ".join(fired))
